@@ -21,6 +21,29 @@ func (f *InjectedFault) Error() string {
 	return fmt.Sprintf("injected fault at probe %d (invocation %d)", f.ID, f.Seq)
 }
 
+// ProbeError is an error interface of the harness' own: a helper may declare
+// it (instead of plain error) as its last result.
+type ProbeError interface {
+	error
+	Probe() int
+}
+
+func (f *InjectedFault) Probe() int { return f.ID }
+
+// probeErrWrap gives any fault value the ProbeError shape (errors.Is still
+// reaches the wrapped fault).
+type probeErrWrap struct{ error }
+
+func (w probeErrWrap) Probe() int    { return 0 }
+func (w probeErrWrap) Unwrap() error { return w.error }
+
+func asProbeError(e error) ProbeError {
+	if pe, ok := e.(ProbeError); ok {
+		return pe
+	}
+	return probeErrWrap{e}
+}
+
 type faultKind int
 
 const (
@@ -217,6 +240,15 @@ func (rt *Runtime) helperData() map[string]interface{} {
 			}
 			return v, nil
 		},
+		"pvi": func(id int, v interface{}) (interface{}, ProbeError) {
+			if rt.enter(id, "", pkValue) {
+				if rt.Kind == fkWrongKind {
+					return wrongKind{"value"}, nil
+				}
+				return nil, asProbeError(rt.Fault)
+			}
+			return v, nil
+		},
 		"pe": func(id int) error {
 			if rt.enter(id, "", pkErr) {
 				return rt.Fault
@@ -338,15 +370,39 @@ func (rt *Runtime) render() (out string, err error) {
 			out, err = "", &renderPanic{r}
 		}
 	}()
-	ctx := plush.NewContextWith(rt.contextData())
-	if plush.CacheEnabled {
-		return plush.Render(rt.Prog.Main, ctx)
+	herr := underSim(func() {
+		ctx := plush.NewContextWith(rt.contextData())
+		if plush.CacheEnabled {
+			out, err = plush.Render(rt.Prog.Main, ctx)
+			return
+		}
+		var t *plush.Template
+		if t, err = plush.NewTemplate(rt.Prog.Main); err != nil {
+			out = ""
+			return
+		}
+		out, err = t.Exec(ctx)
+	})
+	if herr != nil {
+		return "", herr
 	}
-	t, err := plush.NewTemplate(rt.Prog.Main)
-	if err != nil {
-		return "", err
+	return out, err
+}
+
+// execOn executes an already parsed template with a fresh context.
+func (rt *Runtime) execOn(tm *plush.Template) (out string, err error) {
+	defer func() {
+		if r := recover(); r != nil {
+			out, err = "", &renderPanic{r}
+		}
+	}()
+	herr := underSim(func() {
+		out, err = tm.Exec(plush.NewContextWith(rt.contextData()))
+	})
+	if herr != nil {
+		return "", herr
 	}
-	return t.Exec(ctx)
+	return out, err
 }
 
 func (p *Program) describe() map[string]interface{} {
